@@ -7,12 +7,13 @@ import itertools
 from sa.astx import assigned_targets, call_attr, call_name, dotted, src, statements, walk_local
 from sa.effects import class_accesses
 from sa.selftest import Mutant, Silent
-from sa.props._lib_e import (assigns_self, call_in, calls_named, check_name_encoder, http_interp, is_const, local_values, make_env,
+from sa.props._lib_e import (assigns_self, call_in, calls_named, check_name_encoder, check_token_validator, http_interp, is_const, local_values, make_env,
                              no_exc, ordered, resolve_local, self_attr, walk)
 
 PROPERTY = "C20"
 HTTP = "web/http.py"
 HDRS = "web/http_headers.py"
+ABNF = "web/_abnf.py"
 Q = "twisted.web.http."
 QR = Q + "Request."
 SAN = "_sanitizeLinearWhitespace"
@@ -21,7 +22,7 @@ TECHNIQUE = "provenance at the header sink + finite evaluation of sanitisers + C
 EXPLANATION = (
     "Decides (a) provenance at the sink HTTPChannel.writeHeaders <- Request.write: reason phrase sanitised, code numeric-formatted, version "
     "the validated clientproto, headers a Headers object whose _rawHeaders is mutated only by setRawHeaders/addRawHeader/removeHeader with an "
-    "encoded (token-validated) name and _sanitizeLinearWhitespace applied to every stored value; non-Headers iterables are rebuilt through "
+    "encoded name - _istoken itself is evaluated over every byte value and the regex pitfalls (trailing LF/CRLF, NUL, blanks, empty) to accept exactly 1*tchar, every store into the encoder's name cache and every return of encode() must follow a passed _istoken test (helpers followed one level) - and _sanitizeLinearWhitespace applied to every stored value; non-Headers iterables are rebuilt through "
     "addRawHeader; the emitted sequence has the status-line / 'name: value CRLF' / final CRLF layout; cookies are concatenations of literals "
     "and _sanitize()d pieces; (b) by evaluating the source of _sanitizeLinearWhitespace / addCookie._sanitize / toChunk over every byte value "
     "that CR, LF (and ';') are replaced by one space, other bytes kept, and a chunk is hex(len) CRLF data CRLF; (c) by walking Request.write / "
@@ -434,17 +435,17 @@ def _finish(ctx, I):
 
 def check(ctx):
     I = http_interp(ctx)
-    _sanitisers(ctx, I)
-    check_name_encoder(ctx, I)
-    _headers_store(ctx)
-    _write_headers(ctx)
-    _status_provenance(ctx)
-    _cookies(ctx)
-    _write_body(ctx, I)
-    _finish(ctx, I)
+    for name, fn in (("sanitisers", lambda: _sanitisers(ctx, I)), ("token validator", lambda: check_token_validator(ctx, I)),
+                     ("header name encoder", lambda: check_name_encoder(ctx, I)), ("Headers store", lambda: _headers_store(ctx)),
+                     ("writeHeaders", lambda: _write_headers(ctx)), ("status line provenance", lambda: _status_provenance(ctx)),
+                     ("cookies", lambda: _cookies(ctx)), ("Request.write", lambda: _write_body(ctx, I)), ("Request.finish", lambda: _finish(ctx, I))):
+        with ctx.section(name):
+            fn()
 
 
 MUTANTS = [
+    Mutant('token-regex-dollar-accepts-trailing-newline', ABNF, '    for c in b:\n        if c not in (\n            b"ABCDEFGHIJKLMNOPQRSTUVWXYZabcdefghijklmnopqrstuvwxyz"  # ALPHA\n            b"0123456789"  # DIGIT\n            b"!#$%&\'*+-.^_`|~"\n        ):\n            return False\n    return b != b""\n', '    return _TOKEN_RE.match(b) is not None\n', more=[(ABNF, '"""\n\n\ndef _istoken', '"""\n\nimport re\n\n_TOKEN_RE = re.compile(rb"[A-Za-z0-9!#$%&\'*+\\-.^_`|~]+$")\n\n\ndef _istoken')], expect_rule='byte-class/exact'),
+    Mutant('name-cached-by-helper-before-validation', HDRS, '        if not _istoken(bytes_name):\n            raise InvalidHeaderName(bytes_name)\n\n        result = b"-".join([word.capitalize() for word in bytes_name.split(b"-")])\n', '        result = self._remember(name, bytes_name)\n        if not _istoken(result):\n            raise InvalidHeaderName(bytes_name)\n        return result\n\n    def _remember(self, name, bytes_name):\n        result = b"-".join([word.capitalize() for word in bytes_name.split(b"-")])\n', expect_rule='header-name/cache-after-validation'),
     Mutant("F20-revert-reason-unsanitised", HTTP, "            reason = _sanitizeLinearWhitespace(self.code_message)", "            reason = self.code_message",
            expect_rule="status/reason-sanitised"),
     Mutant("addRawHeader-skips-sanitiser", HDRS, "        self._rawHeaders.setdefault(_nameEncoder.encode(name), []).append(\n            _sanitizeLinearWhitespace(\n                value.encode(\"utf8\") if isinstance(value, str) else value\n            )\n        )",
@@ -482,6 +483,9 @@ MUTANTS = [
            expect_rule="headers/complete-before-written"),
 ]
 SILENT = [
+    Silent('token-regex-Z-anchored', ABNF, '    for c in b:\n        if c not in (\n            b"ABCDEFGHIJKLMNOPQRSTUVWXYZabcdefghijklmnopqrstuvwxyz"  # ALPHA\n            b"0123456789"  # DIGIT\n            b"!#$%&\'*+-.^_`|~"\n        ):\n            return False\n    return b != b""\n', '    return _TOKEN_RE.match(b) is not None\n', more=[(ABNF, '"""\n\n\ndef _istoken', '"""\n\nimport re\n\n_TOKEN_RE = re.compile(rb"[A-Za-z0-9!#$%&\'*+\\-.^_`|~]+\\Z")\n\n\ndef _istoken')]),
+    Silent('token-regex-fullmatch', ABNF, '    for c in b:\n        if c not in (\n            b"ABCDEFGHIJKLMNOPQRSTUVWXYZabcdefghijklmnopqrstuvwxyz"  # ALPHA\n            b"0123456789"  # DIGIT\n            b"!#$%&\'*+-.^_`|~"\n        ):\n            return False\n    return b != b""\n', '    return _TOKEN_RE.fullmatch(b) is not None\n', more=[(ABNF, '"""\n\n\ndef _istoken', '"""\n\nimport re\n\n_TOKEN_RE = re.compile(rb"[A-Za-z0-9!#$%&\'*+\\-.^_`|~]+")\n\n\ndef _istoken')]),
+    Silent('name-cached-by-helper-after-validation', HDRS, '        if not _istoken(bytes_name):\n            raise InvalidHeaderName(bytes_name)\n\n        result = b"-".join([word.capitalize() for word in bytes_name.split(b"-")])\n', '        if not _istoken(bytes_name):\n            raise InvalidHeaderName(bytes_name)\n        return self._remember(name, bytes_name)\n\n    def _remember(self, name, bytes_name):\n        result = b"-".join([word.capitalize() for word in bytes_name.split(b"-")])\n'),
     Silent("reason-sanitised-inline", HTTP, "            reason = _sanitizeLinearWhitespace(self.code_message)\n", "",
            more=[(HTTP, "self.channel.writeHeaders(version, code, reason, self.responseHeaders)", "self.channel.writeHeaders(\n                version, code, _sanitizeLinearWhitespace(self.code_message), self.responseHeaders\n            )")]),
     Silent("rename-reason-local", HTTP, "            reason = _sanitizeLinearWhitespace(self.code_message)\n", "            phrase = _sanitizeLinearWhitespace(self.code_message)\n",
